@@ -75,6 +75,37 @@ theorem aif_model_params_agree :
       aifDispatchData.toList.isPrefixOf r.2.2.toList = false) ∧
     aifDispatchModel.toList.isPrefixOf (aifParamWriterPrefix.toList.drop aifCustomReaderSlice) = true := by decide
 
+/-- what the AIF reader builds from the keys it has collected in `raw_dict` (the data loops are stored there as `data0` / `data1`, the
+model block under its `model_…` names): `if any(a.startswith(<data>) …): PointIsotherm … if any(a.startswith(<model>) …): ModelIsotherm … BaseIsotherm` -/
+inductive AifKind | point | model | base
+  deriving DecidableEq, Repr
+
+def aifDispatch (keys : List Str) : AifKind :=
+  if keys.any (fun k => aifDispatchData.toList.isPrefixOf k) then .point
+  else if keys.any (fun k => aifDispatchModel.toList.isPrefixOf k) then .model else .base
+
+/-- exact failure (recorded finding): ANY collected key that begins with the data prefix — a metadata key `dataset` as well as the
+reader's own `data0` — sends the document to the point-isotherm branch, whatever it holds … -/
+theorem aif_key_with_data_prefix_dispatches (keys : List Str) (k : Str) (hk : k ∈ keys) (h : aifDispatchData.toList <+: k) :
+    aifDispatch keys = .point := by
+  unfold aifDispatch
+  rw [if_pos]
+  exact List.any_eq_true.2 ⟨k, hk, List.isPrefixOf_iff_prefix.2 h⟩
+
+/-- … and, when no key has the data prefix, any key that begins with the model prefix (`model_x`, `modelling`) sends it to the model
+branch, which then looks for the names of the model block -/
+theorem aif_key_with_model_prefix_dispatches (keys : List Str) (k : Str) (hk : k ∈ keys) (h : aifDispatchModel.toList <+: k)
+    (hno : ∀ k' ∈ keys, ¬ aifDispatchData.toList <+: k') : aifDispatch keys = .model := by
+  unfold aifDispatch
+  rw [if_neg, if_pos]
+  · exact List.any_eq_true.2 ⟨k, hk, List.isPrefixOf_iff_prefix.2 h⟩
+  · intro hh
+    obtain ⟨k', hk', hp⟩ := List.any_eq_true.1 hh
+    exact hno k' hk' (List.isPrefixOf_iff_prefix.1 hp)
+
+example : aifDispatch ["material".toList, "dataset".toList] = .point ∧ aifDispatch ["material".toList, "model_x".toList] = .model ∧
+    aifDispatch ["material".toList, "date".toList] = .base := by decide
+
 /-- the loop a branch is written to is read back as that branch -/
 def aifLoopBranch (loopPrefix : String) : Nat :=
   if aifLoopReaderPrefix.toList.isPrefixOf loopPrefix.toList then aifLoopReaderBranch else aifLoopReaderDefault
@@ -429,13 +460,53 @@ theorem matRead_other (p key : Str) (h : p.isPrefixOf key = false) : matRead p k
   unfold matRead
   simp [h]
 
-/-- the exact failures (candidate findings): a property name containing the prefix is a `KeyError` at import … -/
+/-- the exact failure of a reader that takes the name with `replace` (the defect repaired in the readers — S45; kept as the witness that
+the way of taking the name matters): a property name containing the prefix is a `KeyError` at import -/
 theorem matRead_name_with_prefix_keyError :
     matRead csvMaterial.startsWith.toList (matJoin csvMaterial.writer.toList "a_material_b".toList) = .keyError ∧
     matRead aifMaterial.startsWith.toList (matJoin aifMaterial.writer.toList "sample_x".toList) = .keyError := by decide
 
-/-- … and an ordinary metadata key that happens to start with the prefix silently becomes a material property -/
-theorem matRead_metadata_key_captured : matRead aifMaterial.startsWith.toList "sample_weight".toList = .prop "weight".toList := by decide
+/-- `matRead` is the `replace` reader -/
+theorem matReadBy_replaceAll (p key : Str) : matReadBy .replaceAll p key = matRead p key := rfl
+
+/-- a reader that slices the LEADING prefix off: every property the writer wrote comes back under its own name — no hypothesis on
+the name (compare `matRead_join_roundtrip_iff`) -/
+theorem matReadBy_leading_join (p k : Str) : matReadBy .leading p (matJoin p k) = .prop k := by
+  unfold matReadBy matJoin matName
+  rw [isPrefixOf_append_self, if_pos rfl]
+  simp
+
+/-- a key that does not start with the prefix is ordinary metadata, for either reader -/
+theorem matReadBy_other (m : Strip) (p key : Str) (h : p.isPrefixOf key = false) : matReadBy m p key = .notMaterial := by
+  unfold matReadBy
+  simp [h]
+
+/-- THE material-property round trip of the three GENERATED readers: every property comes back under its own name, whatever the name —
+the format's own prefix inside it included (`a_material_b`, `sample_x`).  Holds because each reader slices the leading prefix off
+(`strip = .leading`); with `replace` it fails exactly on the names that contain the prefix (`matRead_join_roundtrip_iff`). -/
+theorem material_props_roundtrip :
+    ∀ p ∈ [csvMaterial, xlMaterial, aifMaterial], ∀ k : Str,
+      matReadBy p.strip p.startsWith.toList (matJoin p.writer.toList k) = .prop k := by
+  intro p hp k
+  have h : ∀ q ∈ [csvMaterial, xlMaterial, aifMaterial], q.strip = .leading ∧ q.writer = q.startsWith := by decide
+  rw [(h p hp).1, (h p hp).2]
+  exact matReadBy_leading_join _ k
+
+example : matReadBy csvMaterial.strip csvMaterial.startsWith.toList (matJoin csvMaterial.writer.toList "a_material_b".toList) = .prop "a_material_b".toList ∧
+    matReadBy aifMaterial.strip aifMaterial.startsWith.toList (matJoin aifMaterial.writer.toList "sample_x".toList) = .prop "sample_x".toList := by decide
+
+/-- exact failure (recorded finding): writer and reader share ONE namespace for metadata keys and material properties — the metadata key
+`P ++ t` and the material property `t` are written as the same key, so no reader can tell them apart; both readers take it for the
+property: an ordinary metadata key that happens to start with the prefix silently becomes a material property -/
+theorem material_key_ambiguous (m : Strip) (p t : Str) (hp : p ≠ []) (h : ¬ p <:+: t) : matReadBy m p (p ++ t) = .prop t := by
+  cases m with
+  | replaceAll => exact matRead_join_roundtrip p t hp h
+  | leading => exact matReadBy_leading_join p t
+
+/-- … with the generated prefixes: `_material_weight` (CSV, Excel), `sample_weight` (AIF) -/
+theorem matRead_metadata_key_captured :
+    ∀ p ∈ [csvMaterial, xlMaterial, aifMaterial],
+      matReadBy p.strip p.startsWith.toList (p.startsWith.toList ++ "weight".toList) = .prop "weight".toList := by decide
 
 /-! ### `_to_string` / `_from_list` -/
 
